@@ -200,6 +200,16 @@ def step(s: Store, op: dict, exc_log: list):
     return _step(s, op, exc_log)
 
 
+def memory_order(op, data, w):
+    """the same logical arrays in another memory layout (Fortran order): values and weights are paired by position,
+    whatever the layout"""
+    if op.get("dorder") == "F" and isinstance(data, np.ndarray) and data.ndim >= 2:
+        data = np.asfortranarray(data)
+    if op.get("worder") == "F" and isinstance(w, np.ndarray) and w.ndim >= 2:
+        w = np.asfortranarray(w)
+    return data, w
+
+
 def _step(s: Store, op: dict, exc_log: list):
     name = op["op"]
     try:
@@ -210,6 +220,7 @@ def _step(s: Store, op: dict, exc_log: list):
             w = op.get("weights")
             if w is not None:
                 w = arr(w, np.dtype(op.get("wkind") or "float64"), op.get("wshape", op.get("shape")))
+            data, w = memory_order(op, data, w)
             h = h1(data, mk_binning(op["binning"]), weights=w, dtype=np_dtype(op.get("dtype")),
                    keep_missed=op.get("keep", True), dropna=op.get("dropna", True))
             s.set(op["out"], h)
